@@ -1,0 +1,60 @@
+//go:build verif
+
+// Contracts for govc (contract-based deductive verification, /verif). Comment-only file:
+// it is compiled only under the build tag "verif" and contains no code.
+
+package mod_cors
+
+// the field names this module uses are already in canonical form (a fact about CanonicalMIMEHeaderKey,
+// which is abstract here; stated as a precondition and listed among the assumptions)
+//@ spec corsNamesCanonical() bool := canonKey("Vary") == "Vary" && canonKey("Origin") == "Origin" && canonKey("Access-Control-Allow-Origin") == "Access-Control-Allow-Origin" && canonKey("Access-Control-Allow-Credentials") == "Access-Control-Allow-Credentials" && canonKey("Access-Control-Expose-Headers") == "Access-Control-Expose-Headers" && canonKey("Access-Control-Allow-Methods") == "Access-Control-Allow-Methods" && canonKey("Access-Control-Allow-Headers") == "Access-Control-Allow-Headers" && canonKey("Access-Control-Max-Age") == "Access-Control-Max-Age"
+
+// the origin is allowed by the rule, and what is echoed for it
+//@ spec originAllowed(origin string, rule *CorsRule) bool := has(rule.AccessControlAllowOriginMap, "%origin") || has(rule.AccessControlAllowOriginMap, "*") || has(rule.AccessControlAllowOriginMap, origin)
+//@ spec originEcho(origin string, rule *CorsRule) string := (!has(rule.AccessControlAllowOriginMap, "%origin") && has(rule.AccessControlAllowOriginMap, "*")) ? "*" : origin
+
+// some comma separated item of a Vary value is Origin
+//@ spec listsOrigin(v string) bool := exists b int :: 0 <= b && b < splitCount(v, ",") && trimSpace(splitPiece(v, ",", b)) == "Origin"
+
+//@ func matchOriginAllowed
+//@   props C52
+//@   nopanic
+//@   requires rule != nil
+//@   modifies nothing
+//@   ensures[allowed_exactly_when_configured] result0 <==> originAllowed(origin, rule)
+//@   ensures[echoes_the_origin_or_star_as_configured] result0 ==> result1 == originEcho(origin, rule)
+//@   ensures[nothing_for_a_disallowed_origin] !result0 ==> result1 == ""
+
+//@ func addVaryHeader
+//@   props C52
+//@   nopanic
+//@   requires rspHeader != nil && corsNamesCanonical()
+//@   modifies rspHeader[..]
+//@   ensures[only_vary_is_touched] forall k string :: k != "Vary" ==> (has(rspHeader, k) <==> old(has(rspHeader, k))) && sameslice(rspHeader[k], old(rspHeader[k]))
+//@   ensures[empty_vary_becomes_origin] old(hdrGet(rspHeader, "Vary")) == "" ==> hdrGet(rspHeader, "Vary") == "Origin"
+//@   ensures[star_is_kept] old(hdrGet(rspHeader, "Vary")) == "*" ==> hdrGet(rspHeader, "Vary") == "*"
+//@   ensures[already_listed_is_kept] old(hdrGet(rspHeader, "Vary")) != "" && listsOrigin(old(hdrGet(rspHeader, "Vary"))) ==> hdrGet(rspHeader, "Vary") == old(hdrGet(rspHeader, "Vary"))
+//@   ensures[origin_is_appended_to_existing_values] old(hdrGet(rspHeader, "Vary")) != "" && old(hdrGet(rspHeader, "Vary")) != "*" && !listsOrigin(old(hdrGet(rspHeader, "Vary"))) ==> hdrGet(rspHeader, "Vary") == old(hdrGet(rspHeader, "Vary")) + "," + "Origin"
+//@   loop 1 invariant[no_item_so_far_is_origin] forall b int :: 0 <= b && b <= rangeindex ==> trimSpace(splitPiece(varyValue, ",", b)) != "Origin"
+
+//@ func (*ModuleCors).setRespHeaderForNonPreflight
+//@   props C52
+//@   nopanic
+//@   requires m != nil && m.state != nil && request != nil && request.HttpRequest != nil && rule != nil && rspHeader != nil && corsNamesCanonical()
+//@   requires[response_header_is_not_the_request_header] rspHeader != request.HttpRequest.Header
+//@   let origin := hdrGet(request.HttpRequest.Header, "Origin")
+//@   modifies rspHeader[..]
+//@   ensures[nothing_is_granted_to_a_disallowed_origin] !originAllowed(origin, rule) ==> (forall k string :: (has(rspHeader, k) <==> old(has(rspHeader, k))) && sameslice(rspHeader[k], old(rspHeader[k])))
+//@   ensures[allowed_origin_is_echoed_or_star_as_configured] originAllowed(origin, rule) ==> hdrGet(rspHeader, "Access-Control-Allow-Origin") == originEcho(origin, rule)
+//@   ensures[vary_lists_origin_when_the_answer_depends_on_it] originAllowed(origin, rule) ==> hdrGet(rspHeader, "Vary") == "*" || hdrGet(rspHeader, "Vary") == "Origin" || listsOrigin(old(hdrGet(rspHeader, "Vary"))) && hdrGet(rspHeader, "Vary") == old(hdrGet(rspHeader, "Vary")) || hdrGet(rspHeader, "Vary") == old(hdrGet(rspHeader, "Vary")) + "," + "Origin"
+
+//@ func (*ModuleCors).setRespHeaderForPreflght
+//@   props C52
+//@   nopanic
+//@   requires m != nil && m.state != nil && request != nil && request.HttpRequest != nil && rule != nil && rspHeader != nil && corsNamesCanonical()
+//@   requires[response_header_is_not_the_request_header] rspHeader != request.HttpRequest.Header
+//@   let origin := hdrGet(request.HttpRequest.Header, "Origin")
+//@   modifies rspHeader[..]
+//@   ensures[nothing_is_granted_to_a_disallowed_origin] !originAllowed(origin, rule) ==> (forall k string :: (has(rspHeader, k) <==> old(has(rspHeader, k))) && sameslice(rspHeader[k], old(rspHeader[k])))
+//@   ensures[allowed_origin_is_echoed_or_star_as_configured] originAllowed(origin, rule) ==> hdrGet(rspHeader, "Access-Control-Allow-Origin") == originEcho(origin, rule)
+//@   ensures[vary_lists_origin_when_the_answer_depends_on_it] originAllowed(origin, rule) ==> hdrGet(rspHeader, "Vary") == "*" || hdrGet(rspHeader, "Vary") == "Origin" || listsOrigin(old(hdrGet(rspHeader, "Vary"))) && hdrGet(rspHeader, "Vary") == old(hdrGet(rspHeader, "Vary")) || hdrGet(rspHeader, "Vary") == old(hdrGet(rspHeader, "Vary")) + "," + "Origin"
